@@ -158,7 +158,7 @@ func Attach(cl *qsim.Cluster) *Mon {
 				} else {
 					res.LocalDec++
 					// locally reached: value check + legitimate leader of the round + certificate returned
-					if err := qsim.ValueCheck(st.DecidedValue); err != nil {
+					if err := nd.ValueCheck(st.DecidedValue); err != nil {
 						res.Certs = append(res.Certs, Finding{"local-decision-on-value-failing-value-check", "value-check",
 							fmt.Sprintf("node %d decided %q which fails its own value check", nd.ID, st.DecidedValue)})
 					}
@@ -279,7 +279,10 @@ func Run(c *evid.Case, env *qsim.Env, cfg qsim.Config, after func(cl *qsim.Clust
 	}
 	cl.StartAll()
 	track()
-	if directed {
+	if cfg.Picky > 0 && c.Rng.Intn(2) == 0 {
+		res.Directed = ReproposePrepared(cl, track)
+	}
+	if directed && res.Directed == "" {
 		switch c.Rng.Intn(6) {
 		case 0:
 			if SplitPrepare(cl, track) {
